@@ -308,11 +308,11 @@ def fixed_tags():
     return {tag for sig, tag in SIG_TAG.items() if sig not in known}
 
 
-def mc_consts(auto=(), dial=False, mo=1, mcl=1, cut=0, rec=0, fail=0, sub=4, stall=0, tags=None, moy=None, mut="none", fixed=None):
+def mc_consts(auto=(), dial=False, mo=1, mcl=1, cut=0, rec=0, fail=0, sub=4, stall=0, tags=None, moy=None, mut="none", fixed=None, early=False):
     fixed = fixed_tags() if fixed is None else set(fixed)
     tags = (TAGS if tags is None else set(tags)) - fixed
     return {"AutoSet": set(auto), "Dial": dial, "MaxOpen": mo, "MaxOpenY": mo if moy is None else moy, "MaxClose": mcl, "MaxCut": cut, "MaxRec": rec, "MaxFail": fail,
-            "MaxSub": sub, "MaxStall": stall, "KnownTags": set(tags), "Mut": mut, "Fixed": fixed}
+            "MaxSub": sub, "MaxStall": stall, "KnownTags": set(tags), "Mut": mut, "Fixed": fixed, "EarlyVal": early}
 
 
 def split_endpoints(lines):
